@@ -170,7 +170,7 @@ PROPS = {
     "C12": {
         "rules": [r_misc.lattice_shape, r_misc.spaceopt, r_viterbi.traceback,
                   kind_scope("tokenizer", "unknown"), r_cand.cand, r_cand.charrange,
-                  r_misc.optkeep_tokenizer, r_reset.run_tokens, r_char.run, r_cand.unkspans],
+                  r_misc.optkeep_tokenizer, r_reset.run_tokens, r_char.run, r_cand.unkspans, r_cand.grouprun],
         "explanation": "LATTICE: build_lattice_inner resets first, tests reachability, SPACE "
                        "membership and the skipped run at start_node, adds candidates with "
                        "(start_node, start_word), connects EOS from start_node on every path; "
@@ -243,7 +243,7 @@ PROPS = {
         "technique": "symbolic-expression and loop-shape rules over MIR, kind propagation",
     },
     "C03": {
-        "rules": [r_cand.cand, r_cand.unkfall, r_cand.unkgroup, r_cand.unkspans, r_cand.unkscan, r_cand.charrange,
+        "rules": [r_cand.cand, r_cand.unkfall, r_cand.unkgroup, r_cand.unkspans, r_cand.unkscan, r_cand.grouprun, r_cand.charrange,
                   r_reset.run_tokens, r_misc.optkeep_tokenizer, r_char.run, r_map.run_user, r_char.packguard,
                   kind_scope("dictionary::unknown", "tokenizer")],
         "explanation": "CAND: at every processed position both lexicons are searched over the "
@@ -498,7 +498,7 @@ for _p, (_t, _k) in _ADDED.items():
         PROPS[_p]["technique"] += ", " + _k
 
 _ADDED2 = {
-    "C03": "UNKSCAN: scan_entries loops over exactly offsets[base_id]..offsets[base_id+1] of the given CharInfo and every candidate carries the ids and cost of entries[i] with word_id = i. PACK as for C11 (the packed character record). CHARKEY: char_info indexes the table by the whole code point. MAPKEEP (user-lexicon installation): every successful return of reset_user_lexicon_from_reader has assigned data.user_lexicon and a None reader stores None, so a cleared user lexicon contributes no candidates.",
+    "C03": "GROUPRUN: the run-continuation test of compute_groupable ANDs the category sets of two single characters (never an accumulated intersection). UNKSCAN: scan_entries loops over exactly offsets[base_id]..offsets[base_id+1] of the given CharInfo and every candidate carries the ids and cost of entries[i] with word_id = i. PACK as for C11 (the packed character record). CHARKEY: char_info indexes the table by the whole code point. MAPKEEP (user-lexicon installation): every successful return of reset_user_lexicon_from_reader has assigned data.user_lexicon and a None reader stores None, so a cleared user lexicon contributes no candidates.",
     "C11": "RAWINPUT (second level): library functions hand their caller's reader to Lexicon::from_reader / UnkHandler::from_reader unchanged. PACK: every value packed into a shared integer (`a | b << s`) is known to fit the gap up to the next field (type, mask, or a rejecting comparison on every path) - a (posting offset, homograph count) pair packed without a bound on the count would lose homographs.",
     "C10": "PACK as for C11: CharInfo::new rejects every value that does not fit its bit field. RAWBUILD (FTSMAX): the row width is folded over both bigram files.",
     "C04": "OPTKEEP / OPTSET: the Tokenizer option setters return their receiver, and a field a setter assigns on one path it assigns on every successful path, so the options in force are a function of the last call's arguments and not of the history of option calls.",
